@@ -325,3 +325,127 @@ func sortInts(a []int) {
 		}
 	}
 }
+
+func init() {
+	// updown: random alignments around an A/C/G/T reference with shared SNPs, multiple hits and ambiguity tracts
+	randGens["updown"] = func(rng *rand.Rand, i int) map[string]interface{} {
+		w := 12 + rng.Intn(40)
+		ref := randSeq(rng, w, 0.0)
+		lineage := mutate(rng, ref, 0.08, 0.0)
+		mk := func() string {
+			src := ref
+			if rng.Intn(2) == 0 {
+				src = lineage
+			}
+			b := []byte(mutate(rng, src, 0.06, 0.0))
+			for k := rng.Intn(3); k > 0; k-- { // ambiguity tracts, also at either end
+				a := rng.Intn(w)
+				n := 1 + rng.Intn(4)
+				if rng.Intn(4) == 0 {
+					a = 0
+				}
+				if rng.Intn(4) == 0 {
+					a = w - n
+					if a < 0 {
+						a = 0
+					}
+				}
+				for j := a; j < a+n && j < w; j++ {
+					b[j] = "N-?RY"[rng.Intn(5)]
+				}
+			}
+			return string(b)
+		}
+		nq := 1 + rng.Intn(3)
+		nt := 2 + rng.Intn(18)
+		qs := make([]interface{}, nq)
+		for k := range qs {
+			qs[k] = symList(mk())
+		}
+		ts := make([]interface{}, nt)
+		pool := []string{}
+		for k := range ts {
+			s := mk()
+			if len(pool) > 0 && rng.Intn(4) == 0 {
+				s = pool[rng.Intn(len(pool))]
+			}
+			pool = append(pool, s)
+			ts[k] = symList(s)
+		}
+		o := map[string]interface{}{"sizetotal": 0, "sizeup": 0, "sizedown": 0, "sizeside": 0, "sizesame": 0, "distall": 0, "distup": 0,
+			"distdown": 0, "distside": 0, "push": 0, "nofill": rng.Intn(2) == 0, "thrnum": []int{0, 1, 2, 4}[rng.Intn(4)], "thrden": 4,
+			"thrtarget": []int{0, 2, 5, 10000}[rng.Intn(4)], "ignore": []int{}, "table": rng.Intn(2) == 0}
+		switch rng.Intn(4) {
+		case 0:
+			o["sizetotal"] = 1 + rng.Intn(12)
+		case 1:
+			o["sizeup"], o["sizedown"], o["sizeside"], o["sizesame"] = rng.Intn(4), rng.Intn(4), rng.Intn(4), 1+rng.Intn(3)
+		case 2:
+			o["push"] = 1 + rng.Intn(3)
+		default:
+			o["distall"] = 1 + rng.Intn(4)
+			if rng.Intn(2) == 0 {
+				o["sizetotal"] = 1 + rng.Intn(8)
+			}
+		}
+		if rng.Intn(4) == 0 {
+			o["ignore"] = []int{1 + rng.Intn(nt)}
+		}
+		return map[string]interface{}{"id": "randud-" + itoa(i), "ref": symList(ref), "queries": qs, "targets": ts, "opts": o, "combos": true}
+	}
+}
+
+func init() {
+	// C16: structured mutation of valid alignments at byte level
+	randGens["fasta"] = func(rng *rand.Rand, i int) map[string]interface{} {
+		n := 1 + rng.Intn(5)
+		w := 1 + rng.Intn(30)
+		var recs []rec
+		for k := 0; k < n; k++ {
+			name := "s" + itoa(k+1)
+			if rng.Intn(3) == 0 {
+				name += " description " + itoa(k)
+			}
+			recs = append(recs, rec{name: name, seq: randSeq(rng, w, 0.2)})
+		}
+		b := renderFasta(recs, []int{0, 1, 3, 60}[rng.Intn(4)], rng.Intn(3) == 0)
+		if rng.Intn(5) == 0 {
+			b = []byte(strings.ToLower(string(b)))
+		}
+		for m := rng.Intn(4); m > 0 && len(b) > 0; m-- {
+			switch rng.Intn(8) {
+			case 0: // flip a byte
+				b[rng.Intn(len(b))] = byte(rng.Intn(256))
+			case 1: // truncate
+				b = b[:rng.Intn(len(b)+1)]
+			case 2: // duplicate a line
+				ls := strings.SplitAfter(string(b), "\n")
+				k := rng.Intn(len(ls))
+				ls = append(ls[:k+1], ls[k:]...)
+				b = []byte(strings.Join(ls, ""))
+			case 3: // insert a blank line
+				ls := strings.SplitAfter(string(b), "\n")
+				k := rng.Intn(len(ls) + 1)
+				ls = append(ls[:k], append([]string{"\n"}, ls[k:]...)...)
+				b = []byte(strings.Join(ls, ""))
+			case 4: // a header with nothing after '>'
+				ls := strings.SplitAfter(string(b), "\n")
+				k := rng.Intn(len(ls) + 1)
+				ls = append(ls[:k], append([]string{[]string{">\n", "> \n", ">\t\n", ">"}[rng.Intn(4)]}, ls[k:]...)...)
+				b = []byte(strings.Join(ls, ""))
+			case 5: // delete a byte
+				k := rng.Intn(len(b))
+				b = append(b[:k], b[k+1:]...)
+			case 6: // a very long line
+				b = append(b, []byte(strings.Repeat("ACGT", 1+rng.Intn(5000))+"\n")...)
+			case 7: // lone carriage returns / NUL
+				b[rng.Intn(len(b))] = []byte{'\r', 0, ' ', '\t'}[rng.Intn(4)]
+			}
+		}
+		raw := make([]int, len(b))
+		for k, x := range b {
+			raw[k] = int(x)
+		}
+		return map[string]interface{}{"id": "randfa-" + itoa(i), "raw": raw}
+	}
+}
